@@ -411,7 +411,7 @@ def confirm(ex_factory, harness, finding, cfg, srcs, tag, tol=1e-9):
     if not same:
         return dict(confirmed=False, how="model does not reproduce in the concrete llsym run (%s; findings: %s)" % (
             outcome, [(f.kind, f.label) for f in ex2.findings]), text="", c_file=None)
-    csrc = gen_c(ex2, tr.acts, len(tr.objs), tr.c_prelude, ir_sigs(ex2), tr.dumps)
+    csrc = gen_c(ex2, tr.acts, len(tr.objs), tr.c_prelude() if callable(tr.c_prelude) else tr.c_prelude, ir_sigs(ex2), tr.dumps)
     cpath = os.path.join(scratch(), "replay_%s.c" % tag)
     with open(cpath, "w") as f:
         f.write(csrc)
@@ -451,7 +451,7 @@ def validate_path(ex_factory, harness, model, cfg, srcs, tag, tol=1e-9):
     tr = getattr(ex2, "tr", None)
     if tr is None or not tr.rets:
         return None
-    csrc = gen_c(ex2, tr.acts, len(tr.objs), tr.c_prelude, ir_sigs(ex2), tr.dumps)
+    csrc = gen_c(ex2, tr.acts, len(tr.objs), tr.c_prelude() if callable(tr.c_prelude) else tr.c_prelude, ir_sigs(ex2), tr.dumps)
     cpath = os.path.join(scratch(), "valid_%s.c" % tag)
     with open(cpath, "w") as f:
         f.write(csrc)
